@@ -113,7 +113,7 @@ PROPS = {
                           'incumbent) and N2 (ratio > 0 implies the new point is better than the incumbent it may overwrite) are stated, not proved. The merge '
                           'objmin2 < objmin across hard restarts is a float comparison outside domain L.',
             'not_decided': ['N1, N2 (numeric)', 'init.run_in_parallel=True (known finding D6/D23)']},
-    'C08': {'bundles': ['ledger', 'model'], 'level': 'proof',
+    'C08': {'bundles': ['ledger', 'model', 'vecs'], 'level': 'proof',
             'level_text': 'Partial claim: (i) budget/counter proofs hold for arbitrary returned values (residuals are havoc in domain L); (ii) NaN never displaces a '
                           'finite stored/saved value in Model (exact NaN semantics); (iii) the NaN-at-trial-step exit is flagged EXIT_EVAL_ERROR; (v) no try body '
                           'reaches objfun, so its exceptions unwind unchanged.',
@@ -152,7 +152,7 @@ PROPS = {
                            'syntactic and name-based. ') + LEDGER_NOTE,
             'not_decided': ['delta <= 1e10 with a regulariser (tau has no positive lower bound)', 'recorded best objective never increases (follows from C04, not re-proved here)',
                             'number of interpolation points between 2 and the maximum']},
-    'C06': {'bundles': ['passthru', 'box'], 'level': 'proof',
+    'C06': {'bundles': ['passthru', 'box', 'owner'], 'level': 'proof',
             'level_text': 'Narrow claim. (i) Pass-through: at every call of h (17 sites) and of prox_uh (in the nested gradient_Fu) the call has the shape h(x, *argsh) / prox_uh(x, u, *argsprox) '
                           'with exactly the tuples the caller gave to solve (ghost tokens followed through solve -> solve_main -> Controller -> Model / model_value / ctrsbox_sfista, constructor and '
                           'keyword bindings included), and the starred calls conform for tuples of any length. (ii) True box: every projector handed to the regularised subproblem returns the absolute '
